@@ -1,4 +1,15 @@
 import Sonic.Model.StringDec
+
+/-!
+# Bit-level and table lemmas for C05 (`Sonic.Model.StringDec`)
+
+* the generated tables `kEscapedMap`, `digit_to_val32` against the reference `simpleEscape` / `hexVal`
+  (`decide +kernel` on list equalities, 256 rows each);
+* `hex_to_u32_nocheck` = positional value of four hex digits, `0xFFFFFFFF` otherwise (bit algebra, no enumeration);
+* `codepoint_to_utf8` = the reference UTF-8 encoder;
+* the `StringBlock` idioms (`(bs_bits - 1) & quote_bits`, `TrailingZeroes`, …) on `uint32_t` masks are the
+  "index of the first lane" comparisons used by the model.
+-/
 namespace Sonic.Proofs.StringBits
 open Sonic.Gen Sonic.Spec Sonic.Model.StringDec
 
@@ -164,5 +175,163 @@ theorem codepointToUtf8_eq (cp : Nat) : codepointToUtf8 cp = utf8 cp := by
               · omega
               · congr 1; omega
         · rw [if_neg h4, if_neg (show ¬ cp < 1114112 by omega)]
+
+/-! ### the `StringBlock` bit idioms
+
+`mask p v` is `(v ⋈ …).to_bitmask()`: bit `i` is set iff lane `i` satisfies `p`.  The model represents a mask by
+the index of its lowest set bit (`List.findIdx`, `= length` for the zero mask); the lemmas below show that this
+is exactly what the `uint32_t` expressions of `StringBlock` compute. -/
+
+def mask (p : Nat → Bool) : List Nat → Nat
+  | [] => 0
+  | x :: xs => (if p x then 1 else 0) + 2 * mask p xs
+
+/-- `__builtin_ctz` for a non-zero argument (`fuel` = word size) -/
+def ctz : Nat → Nat → Nat
+  | 0, _ => 0
+  | fuel + 1, m => if m % 2 = 1 then 0 else 1 + ctz fuel (m / 2)
+
+theorem mask_lt (p : Nat → Bool) : ∀ v : List Nat, mask p v < 2 ^ v.length
+  | [] => by simp [mask]
+  | x :: xs => by
+    have := mask_lt p xs
+    simp only [mask, List.length_cons, Nat.pow_succ]
+    split <;> omega
+
+theorem mask_eq_zero_iff (p : Nat → Bool) : ∀ v : List Nat, mask p v = 0 ↔ v.findIdx p = v.length
+  | [] => by simp [mask]
+  | x :: xs => by
+    have ih := mask_eq_zero_iff p xs
+    simp only [mask, List.findIdx_cons, List.length_cons]
+    cases hp : p x
+    · simp only [Bool.false_eq_true, if_false, cond_false]; omega
+    · simp only [if_true, cond_true]; omega
+
+theorem and_bit {a c : Nat} (m n : Nat) (ha : a < 2) (hc : c < 2) :
+    (a + 2 * m) &&& (c + 2 * n) = (a &&& c) + 2 * (m &&& n) := by
+  have hac : a &&& c < 2 := by
+    have : a = 0 ∨ a = 1 := by omega
+    have : c = 0 ∨ c = 1 := by omega
+    rcases ‹a = 0 ∨ a = 1› with rfl | rfl <;> rcases ‹c = 0 ∨ c = 1› with rfl | rfl <;> decide
+  apply Nat.eq_of_testBit_eq
+  intro i
+  cases i with
+  | zero =>
+    rw [Nat.testBit_and]
+    simp only [Nat.testBit_zero]
+    have e1 : (a + 2 * m) % 2 = a := by omega
+    have e2 : (c + 2 * n) % 2 = c := by omega
+    have e3 : ((a &&& c) + 2 * (m &&& n)) % 2 = a &&& c := by omega
+    rw [e1, e2, e3]
+    have : a = 0 ∨ a = 1 := by omega
+    have : c = 0 ∨ c = 1 := by omega
+    rcases ‹a = 0 ∨ a = 1› with rfl | rfl <;> rcases ‹c = 0 ∨ c = 1› with rfl | rfl <;> decide
+  | succ i =>
+    rw [Nat.testBit_and]
+    simp only [Nat.testBit_add_one]
+    have e1 : (a + 2 * m) / 2 = m := by omega
+    have e2 : (c + 2 * n) / 2 = n := by omega
+    have e3 : ((a &&& c) + 2 * (m &&& n)) / 2 = m &&& n := by omega
+    rw [e1, e2, e3, Nat.testBit_and]
+
+/-- lanes cannot satisfy two disjoint predicates: the masks do not overlap -/
+theorem mask_disjoint {p q : Nat → Bool} (hd : ∀ x, ¬(p x = true ∧ q x = true)) :
+    ∀ v : List Nat, mask p v &&& mask q v = 0
+  | [] => by simp [mask]
+  | x :: xs => by
+    have ih := mask_disjoint hd xs
+    simp only [mask]
+    rw [and_bit _ _ (by split <;> omega) (by split <;> omega), ih]
+    have := hd x
+    cases hp : p x <;> cases hq : q x <;> simp_all
+
+/-- `(m - 1) & n != 0` for a non-zero `m`: some `n`-lane lies below the lowest `m`-lane -/
+theorem and_pred_ne_zero {p q : Nat → Bool} (hd : ∀ x, ¬(p x = true ∧ q x = true)) :
+    ∀ v : List Nat, mask p v ≠ 0 → ((mask p v - 1) &&& mask q v ≠ 0 ↔ v.findIdx q < v.findIdx p)
+  | [] => by simp [mask]
+  | x :: xs => by
+    intro hne
+    have ih := and_pred_ne_zero hd xs
+    simp only [mask, List.findIdx_cons] at hne ⊢
+    cases hp : p x
+    · simp only [hp, Bool.false_eq_true, if_false, Nat.zero_add, cond_false] at hne ⊢
+      have hne' : mask p xs ≠ 0 := by omega
+      have e : 2 * mask p xs - 1 = 1 + 2 * (mask p xs - 1) := by omega
+      rw [e, and_bit _ _ (by omega) (by split <;> omega)]
+      cases hq : q x
+      · simp only [Bool.false_eq_true, if_false, cond_false]
+        have := ih hne'
+        rw [show (1 &&& 0) = 0 by decide]
+        omega
+      · simp only [if_true, cond_true]
+        rw [show (1 &&& 1) = 1 by decide]
+        omega
+    · simp only [if_true, cond_true]
+      have hq : q x = false := by
+        cases hq : q x
+        · rfl
+        · exact absurd ⟨hp, hq⟩ (hd x)
+      simp only [hq, Bool.false_eq_true, if_false, cond_false]
+      rw [show 1 + 2 * mask p xs - 1 = 0 + 2 * mask p xs by omega,
+        and_bit _ _ (by omega) (by omega), mask_disjoint hd xs]
+      simp
+
+/-- the `uint32_t` idiom `((m - 1) & n) != 0` (with wrap-around for `m = 0`) on masks of at most 32 lanes -/
+theorem idiom_lt {p q : Nat → Bool} (hd : ∀ x, ¬(p x = true ∧ q x = true)) (v : List Nat)
+    (hv : v.length ≤ 32) :
+    (((mask p v + 2 ^ 32 - 1) % 2 ^ 32) &&& mask q v ≠ 0) ↔ v.findIdx q < v.findIdx p := by
+  have hp := mask_lt p v
+  have hq := mask_lt q v
+  have h32 : 2 ^ v.length ≤ 2 ^ 32 := Nat.pow_le_pow_right (by omega) hv
+  by_cases h0 : mask p v = 0
+  · have hf := (mask_eq_zero_iff p v).1 h0
+    rw [h0, hf, show (0 + 2 ^ 32 - 1) % 2 ^ 32 = 2 ^ 32 - 1 by decide, Nat.and_comm,
+      Nat.and_two_pow_sub_one_eq_mod, Nat.mod_eq_of_lt (by omega)]
+    have := mask_eq_zero_iff q v
+    have := @List.findIdx_le_length _ q v
+    omega
+  · rw [show (mask p v + 2 ^ 32 - 1) % 2 ^ 32 = mask p v - 1 by omega]
+    exact and_pred_ne_zero hd v h0
+
+/-- `TrailingZeroes(m)` of a non-zero mask is the index of the first lane -/
+theorem ctz_mask (p : Nat → Bool) : ∀ (v : List Nat) (fuel : Nat), v.length ≤ fuel → mask p v ≠ 0 →
+    ctz fuel (mask p v) = v.findIdx p
+  | [], _, _, h => by simp [mask] at h
+  | x :: xs, fuel, hl, hne => by
+    obtain ⟨f, rfl⟩ : ∃ f, fuel = f + 1 := ⟨fuel - 1, by simp at hl; omega⟩
+    simp only [mask, List.findIdx_cons, ctz] at hne ⊢
+    by_cases hp : p x = true
+    · simp only [hp, if_true, cond_true]
+      rw [if_pos (by omega)]
+    · have hp' : p x = false := by simpa using hp
+      simp only [hp', Bool.false_eq_true, if_false, Nat.zero_add, cond_false] at hne ⊢
+      rw [if_neg (by omega), show 2 * mask p xs / 2 = mask p xs by omega,
+        ctz_mask p xs f (by simp at hl; omega) (by omega)]
+      omega
+
+/-- the three `StringBlock` predicates and the two index functions, as computed on `uint32_t` masks
+    (`bs_bits`, `quote_bits`, `unescaped_bits` of a vector of at most 32 lanes), are the model's `Block` -/
+theorem block_idioms (v : List Nat) (hv : v.length ≤ 32) :
+    let bs := mask isBs v; let quote := mask isQuote v; let unesc := mask isCtl v
+    let k := mkBlock v
+    ((decide (((quote + 2 ^ 32 - 1) % 2 ^ 32) &&& unesc ≠ 0)) = k.hasUnescaped) ∧
+    ((decide (((bs + 2 ^ 32 - 1) % 2 ^ 32) &&& quote ≠ 0) && !k.hasUnescaped) = k.hasQuoteFirst) ∧
+    ((decide (((quote + 2 ^ 32 - 1) % 2 ^ 32) &&& bs ≠ 0)) = k.hasBackslash) ∧
+    (quote ≠ 0 → ctz 32 quote = k.qi) ∧ (bs ≠ 0 → ctz 32 bs = k.bi) := by
+  have dqc : ∀ x, ¬(isQuote x = true ∧ isCtl x = true) := by
+    intro x; simp only [isQuote, isCtl, beq_iff_eq, decide_eq_true_eq]; omega
+  have dbq : ∀ x, ¬(isBs x = true ∧ isQuote x = true) := by
+    intro x; simp only [isQuote, isBs, beq_iff_eq]; omega
+  have dqb : ∀ x, ¬(isQuote x = true ∧ isBs x = true) := by
+    intro x; simp only [isQuote, isBs, beq_iff_eq]; omega
+  intro bs quote unesc k
+  refine ⟨?_, ?_, ?_, fun h => ctz_mask isQuote v 32 hv h, fun h => ctz_mask isBs v 32 hv h⟩
+  · simp only [Block.hasUnescaped]
+    exact decide_eq_decide.2 (idiom_lt dqc v hv)
+  · simp only [Block.hasQuoteFirst]
+    congr 1
+    exact decide_eq_decide.2 (idiom_lt dbq v hv)
+  · simp only [Block.hasBackslash]
+    exact decide_eq_decide.2 (idiom_lt dqb v hv)
 
 end Sonic.Proofs.StringBits
